@@ -121,6 +121,7 @@ type Engine struct {
 	assertsChecked int
 	finalQueries   int
 	crossCheck     func(e *Engine, c *Term, r string)
+	xSpent, xBudget time.Duration // wall time spent in / allowed for the cross-check solver (per worker)
 	funcsSeen      map[*ssa.Function]bool
 	repoFuncs      map[string]bool
 	engineErrors   []string
